@@ -394,6 +394,23 @@ T = {
  'C17-14': ('C17', GRPCGCP, "makeOpts split: the grpc-gcp options are appended first, the caller's options last", "caller options containing WithDefaultServiceConfig: they win over this object's configuration"),
  'C20-13': ('C20', GRPCGCP, 'config assertion moved to gcpConfigOf and evaluated on every update, after gb.addrs is stored and before the push loops', 'a later update with a foreign BalancerConfig and a new list: rejected after storing, connections keep the old list'),
  'C20-14': ('C20', GRPCGCP, 'push loops merged onto resetSubConn(ref, sc): sc.UpdateAddresses but ref.subConn.Connect()', 'refresh in flight whose replacement went idle: the resolver update never asks it to connect'),
+ # ---- wave 9 (as wave 7, for the same eight properties)
+ 'C05-15': ('C05', GRPCGCP, 'selection merged into selectSubConnRef; the FINEST trace line `scRef.getSubConn()` now runs for every selection kind', 'FINEST logging on, a BOUND/UNBIND pick whose bound channel is not READY and has no fallback: nil slot dereferenced in Pick'),
+ 'C05-16': ('C05', GRPCGCP, 'fallbackSubConnRef: `cur, _ := gb.picker.(*gcpPicker); cur.minStreamsSubConnRef()` without the ok test', 'fallback on, bound channel not READY, current picker is the error picker, pick on a superseded picker: nil receiver'),
+ 'C10-10': ('C10', GRPCGCP, 'detectUnresponsive as a switch with a new accessor isRefreshing() that reads refreshing under ref.mu (it is written under gb.mu only)', 'concurrent client-deadline completions on one channel vs refresh()/the swap: -race'),
+ 'C10-11': ('C10', GRPCGCP, 'RecvMsg: `if cs.ClientStream == nil { await }` reads the field before taking the mutex', 'first RecvMsg concurrent with the first SendMsg: -race'),
+ 'C11-10': ('C11', GRPCGCP, 'messageField reports an unset nested message via isNilRef, whose kind list includes Slice', 'a nil (never set) repeated field on the path: error instead of "no keys"'),
+ 'C11-11': ('C11', GRPCGCP, 'panic-to-error conversion moved to recoveredError(locator), which calls recover() one frame too deep', 'a path promoted through a nil embedded pointer: the reflect panic escapes'),
+ 'C12-15': ('C12', GRPCGCP, 'SendMsg via initOnFirstSend with `defer cs.initDone(err)`: the argument is evaluated at the defer statement (nil)', 'stream creation fails: initStreamErr is never recorded, RecvMsg blocks for ever'),
+ 'C12-16': ('C12', GRPCGCP, 'RecvMsg via streamForRecv: the converted context error is assigned to an if-scoped err that shadows the result', 'context ends while RecvMsg waits: returns (nil, nil) and calls RecvMsg on a nil stream'),
+ 'C13-15': ('C13', ME, 'maybeUpdateCurrent(cur, leaveNow): SetEndpointAvailability reads (cur, leaveNow) BEFORE applying the report', 'recovery timeout 0, switching delay > 0, the available current endpoint reported down: the switch is delayed, Current() names an unavailable endpoint'),
+ 'C13-16': ('C13', ME, 'recovery timer extracted to recoveryExpired(e, stamp): re-evaluates from the captured object when its id equals current', 'an endpoint removed and re-added while its old timer is pending: the orphan pushes Current() to a lower endpoint'),
+ 'C16-16': ('C16', GRPCGCP, 'UpdateMultiEndpoints handles one MultiEndpoint at a time: dials its pools, then SetEndpoints/NewMultiEndpoint for it', 'a dial failure for the k-th MultiEndpoint: the earlier ones are already switched although the update is rejected'),
+ 'C16-17': ('C16', GRPCGCP, 'pickConn via meFor(ctx): the fallback to the default for an unknown name is lost', 'an RPC naming a MultiEndpoint that an accepted update removed: nil interface, panic'),
+ 'C18-11': ('C18', PROBER, 'shared observeGFELatency helper: the streaming call site passes (cs.Trailer(), headers)', 'a streaming call whose header and trailer both carry server-timing: the trailer wins'),
+ 'C18-12': ('C18', PROBER, 'backoff in integer arithmetic: `delay += delay / 2` wraps negative below the clamp', 'max above 2/3 of MaxInt64 ns and a retry count reaching the overflow window: negative delay'),
+ 'C19-11': ('C19', CSUM, 'CRC computed in 4096-byte blocks with `off+block < len(p)`', 'an encoding whose length is an exact multiple of 4096: the last block is not hashed'),
+ 'C19-12': ('C19', CSUM, 'Unmarshal strips the checksum field with append(data[:0], data[6:]...)', "decode, then look at the same bytes again: the caller's buffer was shifted in place"),
 }
 
 ENV = dict(os.environ, GOFLAGS='-mod=mod', GOPROXY='off', GOSUMDB='off', GOTOOLCHAIN='local')
@@ -403,7 +420,7 @@ def sh(cmd, **kw):
     return subprocess.run(cmd, shell=True, text=True, capture_output=True, env=ENV, **kw)
 
 
-RACE = {'C10-2', 'C10-6', 'C10-7', 'C10-8', 'C10-9'}
+RACE = {'C10-2', 'C10-6', 'C10-7', 'C10-8', 'C10-9', 'C10-10', 'C10-11'}
 
 
 def wave_of():
